@@ -8,7 +8,7 @@
 //!
 //! Oracle (from the statement; it never predicts pool contents, it only checks what the
 //! statement demands of the observed answers) — after every operation, for every height
-//! 0..=15, `get_pool(h)` is asked:
+//! 0..=35, `get_pool(h)` is asked:
 //!  * it never panics (nor does any other call);
 //!  * `Ok(peers)` only if header h is stored and every offered peer announced the data
 //!    hash of that header since it was last blocked;
@@ -36,13 +36,16 @@ use serde_json::json;
 #[path = "../shared/shwap_squares.rs"]
 mod shwap_squares;
 
-const MAX_H: u64 = 15;
+const MAX_H: u64 = 35;
 const WINDOW: u64 = 10;
 const TIMEOUT: Duration = Duration::from_millis(120_000 + 1);
 
 /// Data-hash label of every height of the one chain all histories use.  "E" = empty block;
 /// heights 1 and 2 are both empty, heights 3 and 12 carry the same non-empty square.
-const CHAIN: [&str; 14] = ["E", "E", "A", "D4", "D5", "D6", "D7", "D8", "D9", "D10", "B", "A", "C", "E"];
+const CHAIN: [&str; 34] = [
+    "E", "E", "A", "D4", "D5", "D6", "D7", "D8", "D9", "D10", "B", "A", "C", "E", "D15", "D16", "D17", "D18", "D19", "D20", "D21", "D22", "D23", "D24", "D25", "D26", "D27", "D28", "D29",
+    "D30", "D31", "F", "D33", "D34",
+];
 
 struct Chain {
     headers: BTreeMap<u64, ExtendedHeader>,
@@ -94,7 +97,7 @@ fn label_of(h: u64) -> &'static str {
 }
 
 /// Labels of the hash values peers can announce.
-const LABELS: [&str; 6] = ["E", "A", "B", "C", "X", "D4"];
+const LABELS: [&str; 7] = ["E", "A", "B", "C", "X", "D4", "F"];
 
 fn label_index(l: &str) -> u8 {
     LABELS.iter().position(|x| *x == l).unwrap_or_else(|| machinery_error("C40", &format!("unknown hash label {l}"))) as u8
@@ -203,8 +206,8 @@ fn ops(cfg: &Cfg, s: &State) -> Vec<Op> {
     }
     let mut v = vec![];
     if s.hist.is_empty() {
-        for &h in cfg.event_heights.iter().take(2) {
-            if h <= 3 {
+        for (i, &h) in cfg.event_heights.iter().take(2).enumerate() {
+            if i == 0 || h <= 3 {
                 v.push(Op::Boot { h: h as u8 });
             }
         }
@@ -573,11 +576,11 @@ fn viol_pair(k: &str, what: String) -> (String, String) {
 }
 
 const RULE: &str = "histories of operations on a fresh PoolTracker<InMemoryStore> (empty store), ALL histories up to the depth bound, breadth first, operations: \
-Boot{h} (first operation only, h one of the two lowest event heights if <= 3: header h stored and poll until pending, as the unit tests' setup does), Hdr{h} (header h arrives; any order the store's adjacency rule admits), \
-Add{peer, hash, h} = add_peer_for_hash, Poll (poll until Pending), Timeout (paused clock +120 s); after every operation get_pool(h) is asked for every h in 0..=15. \
-One 14-header chain: heights 1,2,14 are empty blocks (same data hash), heights 3 and 12 carry the same non-empty square, all others differ. \
-Searches: quick = (a) event heights {1,2,11}, 2 peers, hash in {data hash of header h, X (no header has it)}, depth 7; (b) event heights {1,12,13} (heads 11 and 12 above a tracked height), same peers/hashes, depth 6. \
-thorough = (a) and (b) to depth 8; (c) event heights {3,12,13}, 2 peers, {right, X}, depth 8; (d) event heights {1,2,3,11,12,13}, 3 peers, hash in {right, X, data hash of another height, empty-square hash}, depth 5. \
+Boot{h} (first operation only, h the lowest event height, or the second lowest if <= 3: header h stored and poll until pending, as the unit tests' setup does), Hdr{h} (header h arrives; any order the store's adjacency rule admits), \
+Add{peer, hash, h} = add_peer_for_hash, Poll (poll until Pending), Timeout (paused clock +120 s); after every operation get_pool(h) is asked for every h in 0..=35. \
+One 34-header chain: heights 1,2,14 are empty blocks (same data hash), heights 3 and 12 carry the same non-empty square, all others differ. \
+Searches: quick = (a) event heights {1,2,11}, 2 peers, hash in {data hash of header h, X (no header has it)}, depth 7; (b) event heights {1,12,13} (heads 11 and 12 above a tracked height), same peers/hashes, depth 6; (e) event heights {11,32} (one head update jumping 21 heights past a tracked pool), same peers/hashes, depth 6. \
+thorough = (a), (b) and (e) to depth 8; (c) event heights {3,12,13}, 2 peers, {right, X}, depth 8; (d) event heights {1,2,3,11,12,13}, 3 peers, hash in {right, X, data hash of another height, empty-square hash}, depth 5. \
 Peers are introduced in index order (symmetry). state = distinct (tracker private state via verif_snapshot, stored heights, oracle bookkeeping); transition = one operation replayed on the real tracker; \
 non-trivial state = at least one height is tracked (candidates or validated). See `searches` for per-search counts and `caps_hit` for bounds not completed.";
 
@@ -608,12 +611,13 @@ fn main() {
             env_u("C40_DEPTH").unwrap_or(6) as usize,
         )]
     } else if ctx.quick() {
-        vec![mk(&[1, 2, 11], 2, false, false, 7), mk(&[1, 12, 13], 2, false, false, 6)]
+        vec![mk(&[1, 2, 11], 2, false, false, 7), mk(&[1, 12, 13], 2, false, false, 6), mk(&[11, 32], 2, false, false, 6)]
     } else {
         vec![
             mk(&[1, 2, 11], 2, false, false, 8),
             mk(&[1, 12, 13], 2, false, false, 8),
             mk(&[3, 12, 13], 2, false, false, 8),
+            mk(&[11, 32], 2, false, false, 8),
             mk(&[1, 2, 3, 11, 12, 13], 3, true, true, 5),
         ]
     };
@@ -694,7 +698,7 @@ fn main() {
         rep.extra("distinct_nontrivial_by_construction", json!(nontrivial.lock().unwrap().len()));
         rep.extra("transitions_into_states_with_a_tracked_height", json!(with_pool.load(Ordering::Relaxed)));
         rep.extra("searches", json!(per_search));
-        rep.extra("chain_data_hash_labels", json!(CHAIN));
+        rep.extra("chain_data_hash_labels", json!(CHAIN.to_vec()));
     }
     finish(
         &ctx,
